@@ -37,8 +37,8 @@ _GENERIC = re.compile(r"(^|[^\w])Generic($|[^\w])")
 class _Prov:
   """Roots of string values / of the elements of sequence values."""
 
-  def __init__(self, mod, fn):
-    self.mod, self.fn = mod, fn
+  def __init__(self, mod, fn, depth=0):
+    self.mod, self.fn, self.depth = mod, fn, depth
     self.rd = ReachingDefs(mod, fn)
     a = fn.args.args
     if len(a) != 2:
@@ -46,6 +46,37 @@ class _Prov:
     self.self_, self.node = a[0].arg, a[1].arg
     self.joined = []      # [(label, roots)] elements of sequences joined into strings
     self._in_elem = 0
+
+  def _helper(self, e):
+    """`self.H(node)`: H is a method of the same class taking (self, node) and
+    is handed this method's own, never re-bound node parameter, so `node.f` in
+    H is the same field as here.  Returns (provenance of H, its return values)
+    or None."""
+    d = dotted(e.func) or ""
+    cls = self.mod.parent.get(self.fn)
+    if not d.startswith(self.self_ + ".") or d.count(".") != 1 or \
+        not isinstance(cls, ast.ClassDef) or self.depth >= 3:
+      return None
+    h = self.mod.methods(cls.name).get(d.split(".")[1])
+    if h is None or h is self.fn or not isinstance(h, ast.FunctionDef):
+      return None
+    a = h.args
+    if len(a.args) != 2 or a.vararg or a.kwarg or a.kwonlyargs or a.posonlyargs \
+        or a.defaults or h.decorator_list:
+      return None
+    if len(e.args) != 1 or e.keywords or not isinstance(e.args[0], ast.Name) \
+        or e.args[0].id != self.node:
+      return None
+    ds = self.rd.defs_of(e.args[0])
+    if len(ds) != 1 or next(iter(ds)).kind != "param":
+      return None
+    rets = [r.value for r in ast.walk(h) if isinstance(r, ast.Return)
+            and self.mod.enclosing_function(r) is h]
+    if not rets or any(v is None for v in rets):
+      return None
+    sub = _Prov(self.mod, h, self.depth + 1)
+    sub._in_elem = self._in_elem   # a join inside an element stays inside it
+    return sub, rets
 
   # roots: ("field", f) | ("const", text) | ("typing", member) | ("opaque", text)
   def roots(self, e, seen):
@@ -83,6 +114,17 @@ class _Prov:
         return {("typing", e.args[0].value)}
       if d in _STR_FUNCS and len(e.args) == 1:
         return self.roots(e.args[0], seen)
+      helper = self._helper(e)
+      if helper:
+        sub, rets = helper
+        out = set()
+        for v in rets:
+          if isinstance(v, ast.Constant) and v.value is None:
+            continue
+          out |= sub.roots(v, frozenset())
+        if not self._in_elem:
+          self.joined += sub.joined  # sequences the helper joined into its result
+        return out
       if d.startswith("re.") and e.args:
         out = set()
         for a in e.args[1:]:
@@ -203,6 +245,13 @@ class _Prov:
         return []
       if isinstance(e.func, ast.Attribute) and e.func.attr == "items" and not e.args:
         return self.elems(e.func.value, seen)
+      helper = self._helper(e)
+      if helper:
+        sub, rets = helper
+        out = []
+        for v in rets:
+          out += sub.elems(v, frozenset())
+        return out
     if isinstance(e, (ast.ListComp, ast.GeneratorExp)):
       return [(src(e.elt)[:60], self.roots(e.elt, seen))]
     if isinstance(e, ast.Subscript) and isinstance(e.slice, ast.Slice):
@@ -302,7 +351,37 @@ def r20_21(ctx):
 _OBJ = ("    if bases == (\"object\",):\n"
         "      bases = ()\n")
 
+_KW_LOOP = """    keywords = []
+    for k, v in node.keywords:
+      vmatch = re.fullmatch(r"Literal\\[(.+)\\]", v)
+      if vmatch:
+        self._imports.decrement_typing_count("Literal")
+        vprint = vmatch.group(1)
+      else:
+        vprint = v
+      keywords.append(f"{k}={vprint}")
+"""
+_VC_DEF = "  def VisitClass(self, node):\n"
+_KW_HELPER = ("  def _FormatClassKeywords(self, node):\n" + _KW_LOOP
+              + "    return keywords\n\n")
+
 VARIANTS = [
+    {"name": "twin-keywords-formatted-by-a-helper-method", "rule": "R20.21",
+     "expect": "silent",
+     "edits": [(PR, _KW_LOOP, "    keywords = self._FormatClassKeywords(node)\n"),
+               (PR, _VC_DEF, _KW_HELPER + _VC_DEF)]},
+    {"name": "helper-method-adds-a-generic-base", "rule": "R20.21", "expect": "fire",
+     "edits": [(PR, _KW_LOOP, "    keywords = self._FormatClassKeywords(node)\n"),
+               (PR, _VC_DEF, _KW_HELPER.replace(
+                   "    return keywords\n",
+                   "    if node.template:\n"
+                   "      keywords.insert(0, \"Generic[\" + \", \".join(node.template) + \"]\")\n"
+                   "    return keywords\n") + _VC_DEF)]},
+    {"name": "twin-header-built-by-a-helper-method", "rule": "R20.21", "expect": "silent",
+     "edits": [(PR, "    bases_str = f\"({', '.join(bases)})\" if bases else \"\"\n",
+                "    bases_str = self._FormatBases(bases)\n"),
+               (PR, _VC_DEF, "  def _FormatBases(self, bases):\n"
+                "    return f\"({', '.join(bases)})\" if bases else \"\"\n\n" + _VC_DEF)]},
     {"name": "seeded-C20-r2m2", "rule": "R20.21", "patch": "seeded/C20-r2m2/patch.diff",
      "expect": "fire"},
     {"name": "header-spells-generic-for-templated-classes", "rule": "R20.21", "file": PR,
